@@ -702,7 +702,7 @@ PROPS = {
         "assumptions": COMMON_ASSUME,
     },
     "C14": {
-        "suites": [("print", 4000, 100000)],
+        "suites": [("print", 4000, 100000), ("asp_parse", 3000, 60000)],
         "extra": roundtrip_extra("C14", "asp"),
         "rule": "(a) Display of generated programs vs the Lean printer model, text equality; (b) round trip on the real pest parser: a generated tree (identifier pool incl. not, nota, notify, forall, _a) is rendered fully "
                 "parenthesised, parsed (tree t1 in the parser's image), printed, re-parsed (must equal t1) and printed again (must be the same text)",
